@@ -1,4 +1,7 @@
 import Pds.Proofs.QuotientSpec
+import Pds.Proofs.QuotientQR
+import Pds.Proofs.QuotientCount
+import Pds.Proofs.QuotientUnion4
 /-!
 # C13 — the quotient filter is an exact set of (quotient, remainder) pairs
 
@@ -140,6 +143,109 @@ theorem history_fits (hN : 0 < N) (h : List (Fin N × Nat)) (hfit : h.toFinset.c
   obtain ⟨sr, h3, h4⟩ := rep_scan h2 a' r' false
   refine ⟨t, _, sr, h1, e2, by rw [h2.2, e1]; simp, h3, ?_⟩
   rw [h4, e1]; simp
+
+/-! ## 4. Index arithmetic and the public `insert` / `query` -/
+
+/-- `calc_quotient_remainder`: for valid parameters and a 64-bit hash the quotient is bits
+`r … q+r-1` of the hash and the remainder bits `0 … r-1`; both are in range. -/
+theorem calcQR_spec {q r fp : Nat} (hp : paramsOk q r = true) (hfp : fp < 2 ^ 64) :
+    calcQR q r fp = ((fp % 2 ^ (q + r)) / 2 ^ r, fp % 2 ^ r) ∧
+      (calcQR q r fp).1 < 2 ^ q ∧ (calcQR q r fp).2 < 2 ^ r := by
+  rw [calcQR_eq hp hfp]
+  exact ⟨rfl, quo_lt q r fp, rem_lt r fp⟩
+
+/-- The public `insert` never reaches its `else none` branch (index out of bounds) and is
+`insert_internal` on `key q r fp = (bits r…q+r-1, bits 0…r-1)`; on a well-formed table it
+behaves like the set specification. -/
+theorem public_insert {q r fp : Nat} (hp : paramsOk q r = true) (hfp : fp < 2 ^ 64)
+    {t : St (2 ^ q)} {S : Finset (Fin (2 ^ q) × Nat)} (hr : Rep t S) :
+    ∃ t', insert q r t fp = some (t', (specStep S (key q r fp)).2) ∧
+      Rep t' (specStep S (key q r fp)).1 := by
+  rw [insert_eq hp hfp]
+  exact rep_insert hr (key q r fp)
+
+/-- The public `query` never panics and answers membership of `key q r fp`. -/
+theorem public_query {q r fp : Nat} (hp : paramsOk q r = true) (hfp : fp < 2 ^ 64)
+    {t : St (2 ^ q)} {S : Finset (Fin (2 ^ q) × Nat)} (hr : Rep t S) :
+    query q r t fp = some (decide (key q r fp ∈ S)) := by
+  rw [query_eq hp hfp]
+  obtain ⟨sr, h1, h2⟩ := rep_scan hr (key q r fp).1 (key q r fp).2 false
+  rw [h1]
+  simp only [Option.map_some, Option.some.injEq]
+  by_cases hm : key q r fp ∈ S
+  · simp [hm, h2.mpr hm]
+  · have : sr.present = false := by
+      cases hx : sr.present
+      · rfl
+      · exact absurd (h2.mp hx) hm
+    simp [hm, this]
+
+/-- Whole histories of hashes through the public `insert`: never `none`, results and final set
+as in the specification run on the keys. -/
+theorem public_history {q r : Nat} (hp : paramsOk q r = true) (fps : List Nat)
+    (hfps : ∀ fp ∈ fps, fp < 2 ^ 64) :
+    ∃ t, runPub q r (empty (2 ^ q)) fps = some (t, (specFrom ∅ (fps.map (key q r))).2) ∧
+      Rep t (specFrom ∅ (fps.map (key q r))).1 := by
+  rw [runPub_eq hp fps hfps]
+  exact history_refines (Nat.two_pow_pos q) _
+
+/-- Two hashes are indistinguishable — a filter that holds only the first reports the second —
+iff they agree modulo `2^(q+r)`. -/
+theorem indistinguishable_iff {q r fp1 fp2 : Nat} (hp : paramsOk q r = true)
+    (h1 : fp1 < 2 ^ 64) (h2 : fp2 < 2 ^ 64) :
+    ∃ t, insert q r (empty (2 ^ q)) fp1 = some (t, .ok true) ∧
+      query q r t fp2 = some (decide (fp1 % 2 ^ (q + r) = fp2 % 2 ^ (q + r))) := by
+  have hN : 0 < 2 ^ q := Nat.two_pow_pos q
+  have hq : 1 < 2 ^ q := by
+    have := (paramsOk_iff.mp hp).2.2.1
+    exact Nat.one_lt_two_pow (by omega)
+  obtain ⟨t, e1, e2, _⟩ := insert_fresh (rep_empty hN) (a := (key q r fp1).1) (r := (key q r fp1).2)
+    (by simp) (by simp; omega)
+  refine ⟨t, by rw [insert_eq hp h1]; exact e1, ?_⟩
+  rw [public_query hp h2 e2]
+  congr 1
+  simp only [Finset.mem_insert, Finset.notMem_empty, or_false, decide_eq_decide]
+  rw [key_eq_iff]
+  exact eq_comm
+
+/-! ## 5. `union` -/
+
+/-- `union` never panics on well-formed tables; it either reports `Full` leaving `self`
+untouched, or succeeds and then represents the union of the two sets (with the right counter;
+in particular `|S ∪ So| ≤ N` in that case). -/
+theorem union_correct {t o : St N} {S So : Finset (Fin N × Nat)} (hr : Rep t S) (ho : Rep o So) :
+    union t o = some (t, .full) ∨
+      ∃ t', union t o = some (t', .ok true) ∧ Rep t' (S ∪ So) ∧ t'.n = (S ∪ So).card :=
+  (union_spec hr ho.1).imp id (fun ⟨t', h1, h2⟩ => ⟨t', h1, h2, h2.2⟩)
+
+/-- On `Full` the complete backup is restored (no invariant needed). -/
+theorem union_full_restores (t o t' : St N) (h : union t o = some (t', .full)) : t' = t := by
+  unfold union at h
+  split at h
+  · cases h
+  · simp only [Option.some.injEq, Prod.mk.injEq] at h; exact h.1.symm
+  · simp at h
+
+/-! ## 6. Counting -/
+
+/-- Exactly `t.n` of the `N × R` pairs `(a, x)`, `x < R`, are reported present, provided all
+stored remainders are below `R` (`R = 2^r` in the real filter). -/
+theorem count_present {t : St N} {S : Finset (Fin N × Nat)} (hr : Rep t S) (R : Nat)
+    (hR : ∀ p ∈ S, p.2 < R) :
+    ((Finset.univ ×ˢ Finset.range R).filter
+      (fun p : Fin N × Nat => present t p.1 p.2 = true)).card = t.n :=
+  Pds.Quotient.count_present hr R hR
+
+/-- Remainders produced by the public interface are always below `2^r`, so the hypothesis of
+`count_present` holds for every table built through `insert`. -/
+theorem public_remainders_small {q r : Nat} (fps : List Nat) :
+    ∀ p ∈ (specFrom (∅ : Finset (Fin (2 ^ q) × Nat)) (fps.map (key q r))).1, p.2 < 2 ^ r := by
+  intro p hp
+  rcases (specFrom_mem _ _ _).mp hp with h | ⟨pre, post, h, _⟩
+  · simp at h
+  · have : p ∈ fps.map (key q r) := by rw [h]; simp
+    obtain ⟨fp, _, rfl⟩ := List.mem_map.mp this
+    exact rem_lt r fp
 
 /-! ## Non-vacuity -/
 
